@@ -139,6 +139,10 @@ func (fr *Frame) appendSlices(a, bb Val, typ types.Type) Val {
 		eq("(s_nil "+n+")", "(and (s_nil "+a.T+") (= "+lb+" 0))"),
 		fmt.Sprintf("(forall ((i Int)) (! (=> (and (<= 0 i) (< i %s)) (= (select (s_arr %s) i) (select (s_arr %s) i))) :pattern ((select (s_arr %s) i))))", la, n, a.T, n),
 		fmt.Sprintf("(forall ((i Int)) (! (=> (and (<= 0 i) (< i %s)) (= (select (s_arr %s) (+ %s i)) (select (s_arr %s) i))) :pattern ((select (s_arr %s) i))))", lb, n, la, bb.T, bb.T),
+		// the same prefix fact without a pattern annotation, in the shape the contract language gives
+		// "forall j int :: 0 <= j && j < len(a) ==> a[j] == r[j]": an instance of a lemma with this premise then
+		// contains a formula the solver already knows (it need not re-derive a nested quantifier)
+		fmt.Sprintf("(forall ((i Int)) (=> (and (<= 0 i) (< i %s)) (= (select (s_arr %s) i) (select (s_arr %s) i))))", la, a.T, n),
 		implies(eq(lb, "1"), eq("(select (s_arr "+n+") "+la+")", "(select (s_arr "+bb.T+") 0)")),
 		implies(eq(la, "0"), and(implies(eq(lb, "1"), eq("(select (s_arr "+n+") 0)", "(select (s_arr "+bb.T+") 0)")), implies(eq(lb, "2"), eq("(select (s_arr "+n+") 1)", "(select (s_arr "+bb.T+") 1)")))),
 	))
